@@ -105,3 +105,26 @@ def solve_with_batch(o, P, orders, compact, bs):
         return o
     o.solve(orders=orders, is_compact_fc=compact, batch_size=bs)
     return o
+
+
+def finite_displacement_dataset(rng, N, amp=0.03, n_pairs=None):
+    """A dataset with exact zeros, as finite-displacement workflows produce: atom 0 is never displaced; every other atom is
+    displaced alone along +x, +y, +z and -y, -z (its x component is never negative for atom 2 and never positive for atom 1:
+    sign-definite columns), then snapshots with two or three atoms displaced by random vectors; +/- pairs are adjacent."""
+    snaps = []
+    for a in range(1, N):
+        for c in range(3):
+            for sgn in (+1, -1):
+                if (a == 1 and c == 0 and sgn > 0) or (a == 2 and c == 0 and sgn < 0):
+                    continue
+                u = np.zeros((N, 3))
+                u[a, c] = sgn * amp * (1 + 0.3 * rng.random())
+                snaps.append(u)
+    for _ in range(n_pairs if n_pairs is not None else 4 * N):
+        u = np.zeros((N, 3))
+        for a in rng.choice(np.arange(1, N), size=int(rng.integers(2, 4)), replace=False):
+            u[a] = rng.normal(size=3) * amp
+        u[1, 0] = -abs(u[1, 0])
+        u[2, 0] = abs(u[2, 0])
+        snaps.append(u)
+    return np.array(snaps)
